@@ -662,7 +662,7 @@ func TestTraceTransform(t *testing.T) {
 	vk.Run(t, vk.Spec[TraceCase]{
 		Property: "C13", Check: "otlp_traces",
 		Rule:  "fast path (recording otlptrace.Client): " + traceRule,
-		Quick: 6000, Thorough: 60000,
+		Quick: 8000, Thorough: 100000,
 		Gen: genTraceCase(traceDomain{maxSpans: 30}), Run: runTraceFast,
 	})
 }
@@ -671,7 +671,7 @@ func TestTraceWire(t *testing.T) {
 	vk.Run(t, vk.Spec[TraceCase]{
 		Property: "C13", Check: "otlp_traces_grpc_http",
 		Rule:  "otlptracegrpc and otlptracehttp (gzip on/off) against loopback collectors, judged separately and against each other: " + traceRule,
-		Quick: 700, Thorough: 8000,
+		Quick: 1000, Thorough: 12000,
 		Gen: genTraceCase(traceDomain{maxSpans: 16}), Run: runTraceWire,
 	})
 }
